@@ -240,7 +240,9 @@ func (s *Subscription) setResource() {
 // and all its referenced resources recursively, has been loaded from the rescache.
 // If the resource is already ready, the callback will directly be called.
 func (s *Subscription) OnReady(cb func()) {
-	if s.IsReady() {
+	// A disposed subscription will never become ready. Call back directly and
+	// let the callback find errDisposedSubscription through Error.
+	if s.IsReady() || s.state == stateDisposed {
 		cb()
 		return
 	}
@@ -802,6 +804,7 @@ func (s *Subscription) Dispose() {
 
 	state := s.state
 	s.state = stateDisposed
+	rcbs := s.readyCallbacks
 	s.readyCallbacks = nil
 	s.eventQueue = nil
 	s.throttle = nil
@@ -812,6 +815,13 @@ func (s *Subscription) Dispose() {
 			s.resourceSub.Unsubscribe(s)
 		}
 		s.resourceSub = nil
+	}
+
+	// Release requests still waiting for the subscription to get ready. They
+	// will find errDisposedSubscription through Error.
+	for _, rcb := range rcbs {
+		rcb.loading--
+		s.testReady(rcb)
 	}
 }
 
@@ -892,6 +902,7 @@ func (s *Subscription) loadAccess(cb func(*rescache.Access), t *rescache.Throttl
 			s.c.Access(s, func(access *rescache.Access) {
 				s.c.Enqueue(func() {
 					if s.state == stateDisposed {
+						s.failAccessCallbacks()
 						return
 					}
 
@@ -914,6 +925,7 @@ func (s *Subscription) loadAccess(cb func(*rescache.Access), t *rescache.Throttl
 		s.c.Access(s, func(access *rescache.Access) {
 			s.c.Enqueue(func() {
 				if s.state == stateDisposed {
+					s.failAccessCallbacks()
 					return
 				}
 
@@ -930,6 +942,19 @@ func (s *Subscription) loadAccess(cb func(*rescache.Access), t *rescache.Throttl
 				}
 			})
 		})
+	}
+}
+
+// failAccessCallbacks is called when the access response arrives for a
+// subscription that has been disposed meanwhile. The requests waiting for the
+// response are answered with errDisposedSubscription.
+func (s *Subscription) failAccessCallbacks() {
+	cbs := s.accessCallbacks
+	s.accessCallbacks = nil
+	s.flags &= ^flagAccessCalled
+	a := &rescache.Access{Error: errDisposedSubscription}
+	for _, cb := range cbs {
+		cb(a)
 	}
 }
 
